@@ -52,10 +52,16 @@ CONFIG = {
         "assumptions": ["nothing is claimed for N beyond the bound"],
     },
     "C06": {
-        "level": "exploration", "proof": False, "rtc": True,
-        "explanation": "Bounded run-time contract on the real Cartesian position-grid getters against an own half-space clipping oracle "
-                       "(no Qhull): every N in 4..42 (quick) / 4..100 (thorough), three algorithms, 1-3 radii.",
-        "assumptions": ["nothing is claimed for N beyond the bound"],
+        "level": "other", "proof": True, "rtc": True,
+        "explanation": "Proved (small core, symbolic sizes): PositionGrid.get_cartesian_distances returns the adjacency's own stored "
+                       "pattern and entry order with data[k] = Euclidean distance of the two grid points (loop summarised by the "
+                       "engine, index bounds proved for every stored entry). Bounded (the actual claim): volumes and border areas "
+                       "against an own half-space clipping oracle (no Qhull), every N in 4..42 (quick) / 4..100 (thorough), three "
+                       "algorithms, 1-3 radii; symmetry, positivity, pattern.",
+        "trusted_base": [NUMPY, "ASSUMED callee contracts: the position-grid adjacency is a coo matrix with in-range indices; the "
+                         "position array has one row of three coordinates per cell"],
+        "assumptions": ["cell volumes and face areas (Qhull Voronoi, ConvexHull, polygon ordering) are bounded only; nothing is claimed for N "
+                        "beyond the bound"],
     },
     "C10": {
         "level": "exploration", "proof": False, "rtc": True,
